@@ -12,6 +12,8 @@ import sys
 import textwrap
 import types
 
+import numpy
+
 from . import symlib as S
 
 SIGN = {"AzimuthalXY": "xy", "AzimuthalRhoPhi": "rhophi", "LongitudinalZ": "z",
@@ -165,6 +167,17 @@ class Tracer:
 
         def w(lib, *args):
             if tr.active[0] is not None and tr.active[0] is not fn:
+                if any(isinstance(a, numpy.ndarray) for a in args):
+                    # object-dtype arrays of symbolic values (symbolic execution of the NumPy backend): record elementwise
+                    k = tr.nret[name]
+
+                    def box(a):        # a bare symbolic scalar would be taken for a sequence by NumPy
+                        if isinstance(a, numpy.ndarray):
+                            return a
+                        b = numpy.empty((), dtype=object)
+                        b[()] = a
+                        return b
+                    return numpy.frompyfunc(lambda *xs: w(lib, *xs), len(args), max(k, 1))(*[box(a) for a in args])
                 if len(args) != len(tr.params[name]):
                     raise TranslationError(f"call to {name} with {len(args)} args")
                 r = S.Sym("call", name, *[S.lift(a) for a in args])
